@@ -32,6 +32,7 @@ RULE = (
     "Non-trivial = >= 2 non-empty groups, or an expression, or a state/applied condition."
 )
 RULE += (" " + 'Regex field lists include patterns with inline flags and numbered back references.')
+RULE += (" Correlation targets: collections of 1-3 rules with varied log sources and tags plus 1-3 correlation rules (also correlation of correlation, depth <= 3); item with 1-2 rule conditions (logsource, is_sigma_rule, is_sigma_correlation_rule, tag), and/or, negation; expected: a log source condition holds on a correlation rule iff some rule reachable through its references has it; observed on group-by fields.")
 ASSUMPTIONS = [
     "an empty condition group holds whatever its linking / negation flag (an item without conditions always applies)",
     "detection items are generated without value modifiers other than fieldref, so value conditions see the source values",
@@ -246,7 +247,72 @@ def _item_yaml(test: dict) -> dict:
     return d
 
 
+def check_corr_case(case: dict) -> Outcome:
+    """Rule conditions on correlation rules: log source = any rule reachable through the references
+    (also through other correlation rules) has it; rule-type conditions; linking and negation."""
+    from sigma.collection import SigmaCollection
+    from sigma.exceptions import SigmaError
+    from sigma.processing.pipeline import ProcessingPipeline
+
+    out = Outcome()
+    out.label("correlation-targets")
+    docs, conds, op, neg = case["docs"], case["conds"], case["op"], case["not"]
+    by_name = {d["name"]: d for d in docs}
+
+    def leaves(d, seen=()):
+        if "correlation" not in d:
+            return [d]
+        res = []
+        for r in d["correlation"]["rules"]:
+            if r not in seen:
+                res += leaves(by_name[r], seen + (d["name"],))
+        return res
+
+    def ev(c, d):
+        if c["type"] == "logsource":
+            want = {k: v for k, v in c.items() if k != "type"}
+            return any(all(x["logsource"].get(k) == v for k, v in want.items()) for x in leaves(d))
+        if c["type"] == "is_sigma_rule":
+            return "correlation" not in d
+        if c["type"] == "is_sigma_correlation_rule":
+            return "correlation" in d
+        if c["type"] == "tag":
+            return c["tag"] in d.get("tags", [])
+        raise KeyError(c["type"])
+
+    depth = max((1 + max((1 if "correlation" in by_name[r] else 0) for r in d["correlation"]["rules"])) for d in docs if "correlation" in d)
+    out.nontrivial = depth >= 2 or len(conds) >= 2
+    if depth >= 2:
+        out.label("correlation-of-correlation")
+    try:
+        coll = SigmaCollection.from_dicts(copy.deepcopy(docs))
+        coll.resolve_rule_references()
+        item = {"id": "test", "type": "field_name_suffix", "suffix": "_M", "rule_conditions": copy.deepcopy(conds), "rule_cond_op": op}
+        if neg:
+            item["rule_cond_not"] = True
+        pipeline = ProcessingPipeline.from_dict({"transformations": [item]})
+        for rule in coll.rules:
+            d = by_name[rule.name]
+            vals = [ev(c, d) for c in conds]
+            want = (all(vals) if op == "and" else any(vals)) != bool(neg)
+            pipeline.apply(rule)
+            if "correlation" in d:
+                got = any(f.endswith("_M") for f in (rule.group_by or []))
+            else:
+                got = rule.detection.detections["sel"].detection_items[0].field.endswith("_M")
+            if got != want:
+                kind = "correlation" if "correlation" in d else "rule"
+                ctype = "+".join(sorted({c["type"] for c in conds}))
+                out.fail(f"C13:corr-target:{kind}:{ctype}:{'applied' if got else 'not-applied'}",
+                         f"conditions {conds} op={op} not={neg}: item {'applied' if got else 'not applied'} to {d['name']} ({'->'.join(x['name'] for x in leaves(d))}), expected {'applied' if want else 'not applied'}; docs {[(x['name'], x.get('logsource'), x.get('correlation', {}).get('rules')) for x in docs]}")
+    except SigmaError as e:
+        out.fail(f"C13:corr-target:error:{type(e).__name__}", f"{e}; conds {conds}")
+    return out
+
+
 def check_case(case: dict) -> Outcome:
+    if case.get("kind") == "corr":
+        return check_corr_case(case)
     from sigma.exceptions import SigmaError
     from sigma.processing.pipeline import ProcessingPipeline
     from sigma.rule import SigmaDetection, SigmaRule
@@ -465,5 +531,27 @@ def cases(draw):
     return {"doc": doc, "pre": pre, "item": item}
 
 
+LOGSOURCES = [{"category": "proc", "product": "win"}, {"category": "net", "product": "win"}, {"product": "linux", "service": "auditd"},
+              {"category": "proc"}, {"category": "proc", "product": "linux", "service": "sysmon"}]
+
+
+@st.composite
+def corr_cases(draw):
+    n = draw(st.integers(1, 3))
+    docs = [{"title": f"r{i}", "name": f"r{i}", "logsource": dict(draw(st.sampled_from(LOGSOURCES))), "tags": draw(st.sampled_from([[], ["attack.t1"], ["attack.t1", "x.y"]])),
+             "detection": {"sel": {"f": i}, "condition": "sel"}} for i in range(n)]
+    names = [d["name"] for d in docs]
+    for j in range(draw(st.integers(1, 3))):
+        pool = names if j == 0 or draw(st.integers(0, 2)) == 0 else [f"c{j - 1}"] + draw(st.lists(st.sampled_from(names), max_size=1))
+        refs = draw(st.lists(st.sampled_from(pool), min_size=1, max_size=2, unique=True)) if pool is names else pool
+        docs.append({"title": f"c{j}", "name": f"c{j}", "tags": draw(st.sampled_from([[], ["attack.t1"]])),
+                     "correlation": {"type": "event_count", "rules": refs, "timespan": "5m", "group-by": ["user"], "condition": {"gte": 2}}})
+    cond = st.one_of(
+        st.sampled_from(LOGSOURCES + [{"product": "win"}, {"service": "auditd"}, {"category": "net"}, {"category": "nomatch"}]).map(lambda l: dict({"type": "logsource"}, **l)),
+        st.sampled_from([{"type": "is_sigma_rule"}, {"type": "is_sigma_correlation_rule"}, {"type": "tag", "tag": "attack.t1"}]))
+    return {"kind": "corr", "docs": docs, "conds": draw(st.lists(cond, min_size=1, max_size=2)), "op": draw(st.sampled_from(["and", "or"])), "not": draw(st.booleans())}
+
+
 def run(ctx) -> None:
     ctx.hyp(cases(), 1500 if ctx.tier == "quick" else 20000)
+    ctx.hyp(corr_cases(), 300 if ctx.tier == "quick" else 4000, salt=2)
